@@ -16,6 +16,9 @@
 #include <ompl/base/spaces/ReedsSheppStateSpace.h>
 #include <ompl/geometric/PathGeometric.h>
 #include <ompl/util/Console.h>
+#include <cxxabi.h>
+#include <dlfcn.h>
+#include <execinfo.h>
 
 namespace vw
 {
@@ -208,6 +211,80 @@ namespace vw
         }
     };
 
+    // R^2 whose allocState/freeState are counted, with the allocation call stack kept for states still alive
+    struct CountingR2 : ob::RealVectorStateSpace
+    {
+        struct Rec
+        {
+            void *frames[10];
+            int n;
+        };
+        mutable std::map<const ob::State *, Rec> live;
+        mutable long allocs = 0, frees = 0, badFrees = 0;
+        mutable std::string badFreeSite;
+        CountingR2() : ob::RealVectorStateSpace(2)
+        {
+        }
+        ob::State *allocState() const override
+        {
+            ob::State *s = ob::RealVectorStateSpace::allocState();
+            Rec r;
+            r.n = backtrace(r.frames, 10);
+            live[s] = r;
+            ++allocs;
+            return s;
+        }
+        void freeState(ob::State *s) const override
+        {
+            auto it = live.find(s);
+            if (it == live.end())
+            {
+                // freeing a state this space does not own (any more): double free or foreign pointer; do NOT pass it on
+                ++badFrees;
+                if (badFreeSite.empty())
+                {
+                    void *fr[10];
+                    int n = backtrace(fr, 10);
+                    badFreeSite = site(fr, n);
+                }
+                return;
+            }
+            live.erase(it);
+            ++frees;
+            ob::RealVectorStateSpace::freeState(s);
+        }
+        // first frame outside the state-space / space-information plumbing
+        static std::string site(void *const *frames, int n)
+        {
+            for (int i = 1; i < n; ++i)
+            {
+                Dl_info info;
+                if (!dladdr(frames[i], &info) || !info.dli_sname)
+                    continue;
+                int st = 0;
+                char *dem = abi::__cxa_demangle(info.dli_sname, nullptr, nullptr, &st);
+                std::string name = dem ? dem : info.dli_sname;
+                free(dem);
+                if (name.find("allocState") != std::string::npos || name.find("cloneState") != std::string::npos || name.find("freeState") != std::string::npos ||
+                    name.find("CountingR2") != std::string::npos || name.find("ScopedState") != std::string::npos || name.find("StateSpace::") != std::string::npos ||
+                    name.find("SpaceInformation::") != std::string::npos || name.find("backtrace") != std::string::npos)
+                    continue;
+                auto p = name.find('(');
+                if (p != std::string::npos)
+                    name = name.substr(0, p);
+                return name;
+            }
+            return "?";
+        }
+        std::map<std::string, int> leakSites() const
+        {
+            std::map<std::string, int> m;
+            for (auto &l : live)
+                m[site(l.second.frames, l.second.n)]++;
+            return m;
+        }
+    };
+
     // everything of one problem instance; nothing is shared between executions
     struct Problem
     {
@@ -230,9 +307,13 @@ namespace vw
         }
         Problem(const Cfg &c) : cfg(c), map(mapByName(c.map)), lat(map, c.space != "R2")
         {
-            if (c.space == "R2")
+            if (c.space == "R2" || c.space == "R2count")
             {
-                auto r = std::make_shared<ob::RealVectorStateSpace>(2);
+                std::shared_ptr<ob::RealVectorStateSpace> r;
+                if (c.space == "R2count")
+                    r = std::make_shared<CountingR2>();
+                else
+                    r = std::make_shared<ob::RealVectorStateSpace>(2);
                 ob::RealVectorBounds b(2);
                 b.setLow(0);
                 b.setHigh(0, map.W());
@@ -303,6 +384,19 @@ namespace vw
                 planner->params().setParam("range", std::to_string(c.range));
             planner->setProblemDefinition(pdef);
             planner->setup();
+        }
+        // a second query on the same space information: different start and goal, none of them a lattice point
+        ob::ProblemDefinitionPtr query2()
+        {
+            auto pd = std::make_shared<ob::ProblemDefinition>(si);
+            ob::ScopedState<> s(space), g(space);
+            setXY(space.get(), s.get(), map.gx + 0.611, map.gy + 0.347, 0.3);
+            setXY(space.get(), g.get(), map.sx + 0.419, map.sy + 0.583, 1.9);
+            pd->addStartState(s);
+            pd->setGoalState(g, cfg.threshold);
+            if (cfg.objective)
+                pd->setOptimizationObjective(std::make_shared<ob::PathLengthOptimizationObjective>(si));
+            return pd;
         }
         ob::PlannerStatus solve(int budget)
         {
